@@ -108,6 +108,11 @@ type stats struct {
 	srvLingering        int64
 	silentDead          int64
 	fenceBeforeSettings int64
+	ceHolds             int64 // conn-error-in-flight constructions (reads held, writer busy, connection error drawn without a fence)
+	ceBehind            int64 // well-formed requests delivered behind a connection error whose GOAWAY was still queued
+	ceFramesBehind      int64 // all frames delivered behind such an error
+	lastCoversBehind    int64 // error GOAWAYs whose last-stream-id reaches an id first used behind the offending frame (observation, not judged)
+	holdLeaks           int64 // constructions in which the busy-writer PING ACK got through before the reads were released
 }
 
 func newStats() *stats {
@@ -153,6 +158,14 @@ type conn struct {
 	afterRej   map[uint32]bool // ids on which a HEADERS/CONTINUATION frame was sent while the id was used up only by rejected blocks (D20)
 	groupFrom  int
 	silent     bool // fell silent after its graceful GOAWAY (taken as connection error)
+
+	// "no request is served after a connection error", also inside one unfenced group:
+	deadBy       string          // the frame that (by the reference) killed the connection, and how it was sent
+	afterDead    map[uint32]bool // ids on which a HEADERS frame was sent after that frame
+	heldReqs     int64           // such requests written successfully since the reads were held
+	heldFrames   int64
+	holdPingData [8]byte
+	holdHasPing  bool
 
 	steps []Step
 	trace []string
@@ -324,10 +337,32 @@ func (c *conn) exec(s Step) {
 	case "hold":
 		c.hc.Hold()
 		c.held = true
-		c.st.holds++
+		if s.Label == ceState {
+			c.st.ceHolds++
+		} else {
+			c.st.holds++
+		}
+		c.heldReqs, c.heldFrames, c.holdHasPing = 0, 0, false
 		c.logf("hold reads")
 		return
 	case "unhold":
+		// was the writer busy all the time? Then the ACK of the busy-writer PING is still
+		// stuck in the server's blocked write and cannot be in the log yet.
+		leak := false
+		if c.holdHasPing {
+			for _, e := range c.peer.Events()[c.cursor:] {
+				if e.Is(http2.FramePing) && e.Flags&http2.FlagPingAck != 0 && e.PingData == c.holdPingData {
+					leak = true
+				}
+			}
+		}
+		if leak {
+			c.st.holdLeaks++
+			c.logf("(the busy-writer PING ACK arrived while reads were held: the writer was not blocked)")
+		} else {
+			c.st.ceBehind += c.heldReqs
+			c.st.ceFramesBehind += c.heldFrames
+		}
 		c.hc.Release()
 		c.held = false
 		c.logf("release reads")
@@ -362,6 +397,22 @@ func (c *conn) exec(s Step) {
 		if !last || s.NoFence || v.Kind == "PENDING" {
 			c.ref.Commit(v, v.Default())
 			p.assumed = true
+			if c.ref.Dead && v.Kind != "DEAD" {
+				// must draw a connection error and nothing else: from here on no request may be
+				// served, although the GOAWAY cannot have been observed yet
+				c.noteDead(v, true)
+			}
+		}
+		if c.held && s.Label == "busy-writer" && v.AckPing {
+			c.holdPingData, c.holdHasPing = v.PingData, true
+		}
+		afterDead := v.Kind == "DEAD"
+		if afterDead && v.Type == 1 {
+			if c.afterDead == nil {
+				c.afterDead = map[uint32]bool{}
+			}
+			// (value: the id was idle, i.e. this HEADERS frame is a new request)
+			c.afterDead[v.SID] = c.afterDead[v.SID] || (v.SID != 0 && c.ref.StateOf(v.SID) == h2peer.StIdle)
 		}
 		c.pending = append(c.pending, p)
 		if v.Tag != "" && c.groupTag == "" {
@@ -399,6 +450,12 @@ func (c *conn) exec(s Step) {
 				return
 			}
 			break
+		}
+		if afterDead && c.held {
+			c.heldFrames++
+			if s.Label == "request-behind-connection-error" && v.Type == 1 {
+				c.heldReqs++
+			}
 		}
 	}
 	if n := len(c.pending); s.NoFence || c.held || (n > 0 && c.pending[n-1].v.Kind == "PENDING") {
@@ -554,6 +611,13 @@ func (c *conn) judge(upto int) {
 				}
 			}
 			c.mu.Unlock()
+			for sid, fresh := range c.afterDead {
+				if fresh && e.ErrCode != http2.ErrCodeNo && e.LastStreamID >= sid {
+					c.st.lastCoversBehind++
+					c.logf("(GOAWAY last-stream-id %d reaches stream %d, first used behind the offending frame)", e.LastStreamID, sid)
+					break
+				}
+			}
 			if e.LastStreamID < ms {
 				c.violate("goaway-last-stream-id", "GOAWAY last-stream-id %d is below stream %d whose handler was started (%v)", e.LastStreamID, ms, e)
 			}
@@ -667,6 +731,7 @@ func (c *conn) judge(upto int) {
 			c.ref.Commit(v, out)
 		}
 		if out == h2peer.OutConnErr {
+			c.noteDead(v, p.assumed)
 			break // 5.4.1: nothing after a connection error is judged (only: no handler starts)
 		}
 		if out == h2peer.OutOK {
@@ -718,6 +783,15 @@ func (c *conn) judge(upto int) {
 		cls := "unexpected-error:" + c.lastLabelKind()
 		if c.groupTag == h2peer.TagAfterRejected && r.kind == h2peer.OutConnErr && r.code == http2.ErrCodeProtocol {
 			cls = c.groupTag // D20 (b)
+		}
+		if rs := c.ref.Streams[r.sid]; r.kind == h2peer.OutStreamErr && (r.code == http2.ErrCodeProtocol || r.code == http2.ErrCodeRefusedStream) &&
+			rs != nil && rs.MayStart && len(c.afterRej) > 0 && uint32(c.ref.ActiveCount()+len(c.afterRej)) > c.ref.Limit {
+			// D20 (a), seen from the side: the server opened a stream for a HEADERS block on the
+			// used-up id (e.g. to answer it with a 400 of its own), still counts it against the
+			// concurrency limit and therefore refuses a request the reference has room for. When
+			// that 400 reaches the log before the fence ACK the same script is classed by the
+			// response itself (above); under load it may come later.
+			cls = h2peer.TagAfterRejected
 		}
 		c.violate(cls, "reaction %s is not explained by any frame sent (all frames of this group were judged; reference allowed none of them to draw it)", r)
 		return
@@ -930,6 +1004,22 @@ func (c *conn) await4xx(sid uint32) bool {
 	return true
 }
 
+// noteDead remembers the input situation in which the connection died (by the
+// reference): which frame, and whether the frames after it were sent before its
+// GOAWAY could be seen.
+func (c *conn) noteDead(v *h2peer.Verdict, unfenced bool) {
+	if c.deadBy != "" {
+		return
+	}
+	c.deadBy = frameName(v) + ":" + slug(v.Why)
+	switch {
+	case c.held:
+		c.deadBy += ":goaway-queued-behind-blocked-write"
+	case unfenced:
+		c.deadBy += ":same-unfenced-group"
+	}
+}
+
 // checkStarts applies the global handler monitors to the start log.
 func (c *conn) checkStarts() {
 	c.mu.Lock()
@@ -958,6 +1048,11 @@ func (c *conn) checkStarts() {
 			cls := "handler-not-allowed:" + st.String()
 			if c.afterRej[s.SID] || (s.SID%2 == 1 && s.SID > c.ref.MaxAcceptedID && s.SID <= c.ref.MaxClientID) {
 				cls = h2peer.TagAfterRejected // D20 (a)
+			}
+			if _, behind := c.afterDead[s.SID]; behind && c.deadBy != "" {
+				// the request was sent after a frame that must draw (only) a connection error
+				c.violate("request-served-after-connection-error:"+c.deadBy, "handler started for stream %d, whose HEADERS frame was sent after the frame that must draw a connection error (%s); 5.4.1: no further request may be served on that connection", s.SID, c.deadBy)
+				continue
 			}
 			c.violate(cls, "handler started for stream %d, for which the reference allows none (reference stream state: %v; dead=%v graceful-goaway=%v last=%d)", s.SID, st, c.ref.Dead, c.ref.ServerGoAway, c.ref.ServerLast)
 		}
